@@ -361,7 +361,7 @@ Proof. vm_compute. reflexivity. Qed.
 (** the zoo (the derived types the harness instantiates, wire structs included) is well-formed *)
 Example C16_ex_zoo_wf :
   Forall (fun i => match zoo i with Some d => wf_dty d | None => False end)
-    [0; 1; 2; 3; 4; 5; 6; 8; 10; 11; 12; 13; 14; 15; 16; 17; 20; 21; 22; 23; 24].
+    [0; 1; 2; 3; 4; 5; 6; 7; 8; 10; 11; 12; 13; 14; 15; 16; 17; 20; 21; 22; 23; 24].
 Proof. exact zoo_wf. Qed.
 
 (** AttrPath {endpoint: 1, cluster: 6, attr: 0} as a TLV list; an unknown field and another
